@@ -526,7 +526,75 @@ def oracle_subjects(payload, info):
     return None
 
 
+def scen_queue(rng, n):
+    base = [
+        "(queue (poster (post 1) (post 2)) (poster (post 3) abort))",
+        "(queue (poster (post 1) (post 2) (post 3)))",
+        "(queue (poster (post 1) (post 2)) (poster (post 3) (post 4)) (poster (post 5)))",
+        "(queue (poster (post 1) (post 2)) (body 1 (post 5) abort))",
+        "(queue (poster (post 1) abort (post 2)) (poster abort))",
+        "(queue (poster (post 1)) (body 1 (post 2)) (body 2 abort))",
+        "(queue (poster abort))",
+        "(queue (poster (post 1) (post 2) abort) (poster (post 3) (post 4)) (body 3 (post 30)))",
+        "(queue (poster (post 1) abort abort) (poster (post 2)))",
+        "(queue (poster (post 1) (post 2) (post 3) (post 4) abort))",
+    ]
+    tid = [100]
+    for _ in range(n):
+        posters = []
+        bodies = []
+        for p in range(rng.choice([1, 2, 2, 3])):
+            calls = []
+            for _ in range(rng.randint(1, 4)):
+                if rng.random() < 0.25:
+                    calls.append("abort")
+                else:
+                    tid[0] += 1
+                    calls.append("(post %d)" % tid[0])
+                    if rng.random() < 0.2:
+                        tid[0] += 1
+                        bodies.append("(body %d %s)" % (tid[0] - 1, rng.choice(["(post %d)" % tid[0], "abort", "(post %d) abort" % tid[0]])))
+            posters.append("(poster %s)" % " ".join(calls))
+        if not any("abort" in x for x in posters + bodies):
+            posters[-1] = posters[-1][:-1] + " abort)"     # every scenario ends the worker (no Drop impl: a scheduler must be aborted)
+        base.append("(queue %s)" % " ".join(posters + bodies))
+    out = []
+    for i, b in enumerate(base):
+        if "abort" not in b:
+            b = b[:-1] + " (poster abort))"
+        out.append("(conc C08-%d %s)" % (i, b))
+    return out
+
+
+def oracle_queue(payload):
+    """stamps: `<tid>:taskStart<t>` / `<tid>:taskEnd<t>`; one at a time, at most once, one worker thread"""
+    parts = payload.split(" ; ")
+    if len(parts) < 3:
+        return "malformed record"
+    stamps = parts[1].split()
+    running = None
+    started = []
+    tids = set()
+    for s in stamps:
+        tid, ev = s.split(":", 1)
+        tids.add(tid)
+        if ev.startswith("taskStart"):
+            t = ev[len("taskStart"):]
+            if running is not None:
+                return "task %s started while task %s was still running" % (t, running)
+            if t in started:
+                return "task %s ran twice" % t
+            started.append(t)
+            running = t
+        elif ev.startswith("taskEnd"):
+            running = None
+    if len(tids) > 1:
+        return "tasks ran on more than one thread: %s" % sorted(tids)
+    return None
+
+
 CONC = {
+    "C08": dict(model="queue", scen=scen_queue, oracle=oracle_queue, corr="Conc.Queue (lean/RxVerif/Conc/Queue.lean) vs src/schedulers/async_function_queue.rs, new_thread_scheduler.rs"),
     "C19": dict(model="obs", scen=scen_obs, oracle=oracle_obs, corr="Conc.Observer (lean/RxVerif/Conc/Observer.lean) vs src/observer.rs + src/internals/function_wrapper.rs"),
     "C18": dict(model="tovec", scen=scen_tovec, oracle=oracle_tovec, corr="Conc.ToVec (lean/RxVerif/Conc/ToVec.lean) vs src/operators/to_vec.rs"),
     "C12": dict(model=None, scen=scen_subjects, oracle=oracle_subjects, corr="Conc.Subject / Conc.Replay / Conc.Behavior vs src/subjects/*.rs", info=True),
@@ -608,6 +676,12 @@ def run_conc(prop, tier, seed, jobs, write_evidence, write_replay, load_known):
         c = co.get(l, "")
         if " REJECT " in c:
             rejects.append((l, c))
+        elif cfg.get("model") == "queue" and not msg:
+            ms = re.search(r"started=\[([^\]]*)\]", c)
+            impl_started = [x.split("taskStart")[1] for x in payload.split(" ; ")[1].split() if "taskStart" in x]
+            model_started = [x.strip() for x in ms.group(1).split(",") if x.strip()] if ms else None
+            if model_started is not None and impl_started != model_started:
+                oracle_fail.append((l, "tasks started in the order %s, FIFO order of the pushes is %s" % (impl_started, model_started)))
         else:
             m = re.search(r"steps=(\d+)", c)
             steps += int(m.group(1)) if m else payload.count(";") + 1
